@@ -11,8 +11,11 @@ import (
 	"strconv"
 	"strings"
 	"sync"
+	"time"
 
 	"github.com/ProtonMail/gluon/verifhooks"
+
+	"github.com/ProtonMail/gluon/imap"
 
 	"verifharness/ev"
 	"verifharness/imapc"
@@ -146,7 +149,7 @@ func around(s string, i int) string {
 }
 
 func runC13(r *ev.Run) {
-	r.SetRule("generated MIME messages whose section bytes are known by construction (nesting <= 4, multipart/message-rfc822/leaf parts, folded headers, CRLF and LF line endings, 8-bit data, an occasional leaf across the store's 256 KiB block edge) are APPENDed (7 in 10 plainly; 1 in 10 rejected by the remote, kept in the recovery mailbox and moved or copied out of it; 2 in 10 appended, then their store file removed so that the next fetch downloads them from the remote again and later ones read what was written back); every relation of the property is then checked on the wire: BODY[] vs the appended bytes (+ one server ID line), RFC822/RFC822.SIZE/HEADER/TEXT, every BODY[p], BODY[p.MIME], BODY[p.HEADER], BODY[p.TEXT], partials <o.n> with o,n in {0,1,len-1,len,len+1,2^31,2^63-1}, HEADER.FIELDS vs HEADER.FIELDS.NOT partition. distinct = distinct (relation, part kind, depth, line ending) tuples")
+	r.SetRule("generated MIME messages whose section bytes are known by construction (nesting <= 4, multipart/message-rfc822/leaf parts, folded headers, header fields without a value, a top-level content type message/rfc822 now and then, CRLF and LF line endings, 8-bit data, an occasional leaf across the store's 256 KiB block edge) are APPENDed (5 in 10 plainly; 1 in 10 delivered by the connector instead (MessagesCreated); 1 in 10 appended and then replaced through MessageUpdated with other bytes; messages without any header field now and then, into \\Drafts mailboxes and through the connector; 1 in 10 rejected by the remote, kept in the recovery mailbox and moved or copied out of it; 2 in 10 appended, then their store file removed so that the next fetch downloads them from the remote again and later ones read what was written back); every relation of the property is then checked on the wire: BODY[] vs the appended bytes (+ one server ID line), RFC822/RFC822.SIZE/HEADER/TEXT, every BODY[p], BODY[p.MIME], BODY[p.HEADER], BODY[p.TEXT], partials <o.n> with o,n in {0,1,len-1,len,len+1,2^31,2^63-1}, HEADER.FIELDS vs HEADER.FIELDS.NOT partition. distinct = distinct (relation, part kind, depth, line ending) tuples")
 	r.Assume("literal framing is checked by the wire parser: a {n} that is not followed by exactly n bytes and a well-formed continuation makes the response unparseable, which is reported")
 
 	msgs := r.Pick(700, 25000)
@@ -172,6 +175,14 @@ func runC13(r *ev.Run) {
 
 	var rejected sync.Map // markers the remote rejects
 
+	s.Users[0].Conn.AttrsFor = func(name []string) imap.FlagSet {
+		if len(name) == 1 && strings.HasPrefix(name[0], "Drafts") {
+			return imap.NewFlagSet(imap.AttrDrafts)
+		}
+
+		return nil
+	}
+
 	s.Users[0].Conn.RejectLiteral = func(lit []byte) error {
 		if _, ok := rejected.Load(markerOfLiteral(lit)); ok {
 			return errors.New("verif: the remote rejects this message")
@@ -184,7 +195,13 @@ func runC13(r *ev.Run) {
 		conn := s.MustLogin(fmt.Sprintf("w%d", w))
 		defer conn.Close()
 
+		// every other worker's mailbox is a \Drafts mailbox: APPEND skips the From/Date validation there, so a
+		// message without any header field can get in
 		box := fmt.Sprintf("Box%d", w)
+		if w%2 == 1 {
+			box = fmt.Sprintf("Drafts%d", w)
+		}
+
 		conn.Cmd("CREATE " + box)
 
 		if res := conn.Cmd("SELECT " + box); !res.OK() {
@@ -205,7 +222,7 @@ func runC13(r *ev.Run) {
 			}
 
 			rng := r.Rand(label)
-			g := &mimeGen{rng: rng, nl: []string{"\r\n", "\r\n", "\n"}[rng.Intn(3)], maxDepth: 1 + rng.Intn(4), eightBit: rng.Intn(2) == 0}
+			g := &mimeGen{rng: rng, nl: []string{"\r\n", "\r\n", "\n"}[rng.Intn(3)], maxDepth: 1 + rng.Intn(4), eightBit: rng.Intn(2) == 0, emptyFields: true, topMessage: true}
 
 			if rng.Intn(12) == 0 {
 				g.bigLeaf = 250*1024 + rng.Intn(40*1024)
@@ -216,13 +233,56 @@ func runC13(r *ev.Run) {
 
 			// how the message gets into the mailbox: appended; rejected by the remote, kept in the recovery
 			// mailbox and moved / copied out of it; appended, its store file lost and downloaded again
-			prov := []string{"appended", "appended", "appended", "appended", "appended", "appended", "appended", "recovered", "redownloaded", "redownloaded"}[rng.Intn(10)]
+			prov := []string{"appended", "appended", "appended", "appended", "appended", "recovered", "redownloaded", "redownloaded", "updated", "delivered"}[rng.Intn(10)]
+
+			// a message without a single header field (the literal begins with the empty line): possible in a
+			// \Drafts mailbox and through the connector
+			if ((prov == "appended" && strings.HasPrefix(box, "Drafts")) || prov == "delivered") && rng.Intn(5) == 0 {
+				body := "Just a note " + label + g.nl + g.words(1+rng.Intn(20)) + g.nl
+				msg = &mimePart{NL: g.nl, Type: "text", Sub: "plain", TopLevel: true, Marker: label, Header: []byte(g.nl), Body: []byte(body)}
+				orig = msg.Bytes()
+				prov += " headerless"
+			}
 
 			if prov == "recovered" {
 				rejected.Store(label, true)
 			}
 
-			res := conn.Cmd("APPEND "+box+" ", imapc.Lit(orig))
+			var res *imapc.Result
+
+			if strings.HasPrefix(prov, "delivered") {
+				// the message arrives through the connector (MessagesCreated) instead of APPEND
+				hc := s.Users[0].Conn
+				id, _ := hc.MailboxID(box)
+				mc, err := hc.RemoteAddMessage(orig, imap.NewFlagSet(), time.Date(2006, 1, 2, 15, 4, 5, 0, time.UTC), id)
+
+				if err != nil {
+					r.Violate("C13 wellformed-message-refused", fmt.Sprintf("imap.NewParsedMessage refuses %s: %v", label, err), label, map[string]any{"message": fmt.Sprintf("%q", shorten(string(orig), 4000))})
+					continue
+				}
+
+				if ack := hc.Apply(imap.NewMessagesCreated(false, mc), srv.UpdateTimeout); !ack.Acked || ack.Err != nil {
+					if !ack.Acked {
+						r.Inconclusive("%s: MessagesCreated not acknowledged", label)
+						return
+					}
+
+					r.Violate("C13 delivery-refused", fmt.Sprintf("MessagesCreated for %s acknowledged with %v", label, ack.Err), label, map[string]any{"message": fmt.Sprintf("%q", shorten(string(orig), 4000))})
+
+					continue
+				}
+
+				// the session takes the update off its queue between commands; wait until it has it
+				if !mustQuiesce(r, s, 0, label) {
+					return
+				}
+
+				res = conn.Cmd("NOOP")
+				r.Count("messages_delivered_by_the_connector", 1)
+			} else {
+				res = conn.Cmd("APPEND "+box+" ", imapc.Lit(orig))
+			}
+
 			rejected.Delete(label)
 
 			if !res.OK() && prov == "recovered" && res.Status == "NO" {
@@ -264,6 +324,38 @@ func runC13(r *ev.Run) {
 			n++
 
 			c := &c13Case{r: r, label: label, rng: rng, s: s, c: conn, seq: n, msg: msg, orig: orig, prov: prov}
+
+			if prov == "updated" {
+				// the remote replaces the message's bytes (MessageUpdated): gluon removes the message and creates it
+				// again from the new literal; what is fetched afterwards must be that literal
+				hc := s.Users[0].Conn
+				msg2 := g.message(0, label)
+				orig2 := msg2.Bytes()
+
+				if mi, ok := hc.FindMessage("<" + label + "@"); ok {
+					parsed, _ := imap.NewParsedMessage(orig2)
+					hc.RemoteSetLiteral(mi.ID, orig2)
+					ack := hc.Apply(imap.NewMessageUpdated(imap.Message{ID: mi.ID, Flags: mi.Flags.Clone(), Date: mi.Date}, append([]byte{}, orig2...), mi.Mailboxes, parsed, false), srv.UpdateTimeout)
+
+					if !ack.Acked {
+						r.Inconclusive("%s: MessageUpdated not acknowledged", label)
+						return
+					}
+
+					if ack.Err != nil {
+						r.Violate("C13 update-refused", fmt.Sprintf("MessageUpdated for %s acknowledged with %v", label, ack.Err), label, nil)
+						continue
+					}
+
+					if !mustQuiesce(r, s, 0, label) {
+						return
+					}
+
+					conn.Cmd("NOOP") // EXPUNGE n, n EXISTS: the replacement takes the last place again
+					c.msg, c.orig = msg2, orig2
+					r.Count("messages_replaced_by_MessageUpdated", 1)
+				}
+			}
 
 			if prov == "redownloaded" {
 				// the first fetch names the store file; with the file gone the next fetch downloads the message
@@ -365,8 +457,13 @@ func (c *c13Case) run(nl string) {
 		mark("RFC822*", c.msg, "")
 	}
 
-	// 2. Every part.
+	// 2. Every part. (A message whose own content type is message/rfc822 has no unambiguous part numbers: only
+	// the whole-message relations, partials of them and the header-field partition are checked for it.)
 	secs := sections(c.msg)
+	if c.msg.IsMessage() {
+		secs = nil
+		mark("top-level message/rfc822", c.msg, "")
+	}
 
 	type target struct {
 		att  string
@@ -378,7 +475,7 @@ func (c *c13Case) run(nl string) {
 
 	targets = append(targets, target{"BODY.PEEK[]", withID, "BODY[]"}, target{"BODY.PEEK[HEADER]", hdrWithID, "BODY[HEADER]"}, target{"BODY.PEEK[TEXT]", c.msg.Body, "BODY[TEXT]"})
 
-	if !c.msg.IsMultipart() {
+	if !c.msg.IsMultipart() && !c.msg.IsMessage() {
 		targets = append(targets, target{"BODY.PEEK[1]", c.msg.Body, "BODY[1] single-part"})
 	}
 
